@@ -454,21 +454,26 @@ class BaseParser:
                 continue
 
             if not options.ignore_alias_conflicts:
-                if name in result:  # or (excluded_keys and name in excluded_keys):
+                if name in raw_values:
                     # compare the given values (as field_first_parse does), not a parsed value with a raw one
-                    if raw_values.get(name, result[name]) != value:
+                    # also if the first value was excluded by the field's on_error policy
+                    if raw_values[name] != value:
+                        context.handle_error(exc.AliasConflictError(item=name, value=value))
+                    continue
+                if name in result:  # or (excluded_keys and name in excluded_keys):
+                    if result[name] != value:
                         context.handle_error(exc.AliasConflictError(item=name, value=value))
                     continue
 
             if excluded_keys and name in excluded_keys:
                 continue
 
+            raw_values[name] = value
             parsed = field.parse_value(value, context=context)
             if unprovided(parsed):
                 continue
 
             result[name] = parsed
-            raw_values[name] = value
 
             if field.dependencies:
                 dependencies.update(
